@@ -20,8 +20,14 @@ anything else is a violation:
                           the actors start (the XML loader fires on_platform_created for that): at date 0 the
                           application still sees the initial values                           (variant Timeline!Early)
 
-Mutations tried (tools/mutbuild.sh, quick tier):
-  see the end of this docstring (filled in after the experiments)
+The proposed fixes proposed/fix-C22-bandwidth-increase.diff and fix-C22-latency-event.diff were applied to a scratch tree:
+the quick tier then reports no bandwidth-increase / latency-event finding any more (and no new mismatch).
+
+Mutations tried (tools/mutbuild.sh, quick tier), all CAUGHT (exit 1):
+  * ProfileBuilder.cpp: the first point of every later iteration delayed by one more loop delay (repetition one gap late)
+  * cpu_cas01.cpp: a speed event changes speed_.scale without updating the constraint and the variable bounds
+  * FutureEvtSet.cpp: pop_leq pops events strictly before the date only (the simulation no longer terminates: reported
+    as runs that end with `hang`)
 """
 import json
 from fractions import Fraction as F
